@@ -76,7 +76,7 @@ def translate_unwindset(gb, spec):
         name, bound = part.rsplit(':', 1)
         if '#' in name:
             fn, n = name.split('#'); ls = sorted(loops.get(fn, []))
-            if int(n) < 1 or int(n) > len(ls): raise ValueError('no loop %s in %s (has %d)' % (n, fn, len(ls)))
+            if int(n) < 1 or int(n) > len(ls): continue   # loop structure changed: the default --unwind applies
             name = ls[int(n) - 1][1]
         outp.append('%s:%s' % (name, bound))
     return ','.join(outp)
